@@ -771,7 +771,7 @@ def check_c12(exe, tier, seed, verdict):
     entries = ["readdirs", "readdirscb", "rc2", "rc2cb", "readhist", "readhistcb"]
     cases = []
     metas = []
-    SPECIAL = [":v2", ";x", " sp", "=#", "%s", "[a]", "\\", "..d", "\xc3\xa4"]
+    SPECIAL = [":v2", ";x", " sp", "=#", "%s", "[a]", "\\", "..d", "\xc3\xa4", "tb ", "\ttab"]
     ents_of = {}
     for i, x in enumerate(recs):
         # every fourth tree lives in a directory whose name holds characters that mean something elsewhere (list separators of
@@ -779,7 +779,8 @@ def check_c12(exe, tier, seed, verdict):
         # directories verbatim (only the option-string route cannot name such a directory and is left out there)
         special = i % 4 == 3
         R = ROOT + "/e%d%s" % (i % 16, SPECIAL[(i // 4) % len(SPECIAL)] if special else "")
-        ents_of[i] = [e for e in entries if not (special and e.startswith("rc2"))]
+        sp_ = SPECIAL[(i // 4) % len(SPECIAL)] if special else ""
+        ents_of[i] = [e for e in entries if not (e.startswith("rc2") and (":" in sp_ or ";" in sp_))]
         t = {"main": x["main"], "drop": x["drop"], "shp": x["shp"], "dnull": x.get("dnull")}
         s, paths = materialise(t, Shape("readdirs", 2), R)
         sc = list(s)
@@ -861,6 +862,7 @@ def check_c12(exe, tier, seed, verdict):
                 nn += 1
     # NULL / empty directory arguments
     ok += check_null_dirs(exe, verdict)
+    ok += check_blank_dirs(exe, verdict)
     ok += check_confdirs(exe, rnd.sample(recs, min(len(recs), 300)), verdict)
     nreq = check_requirements_agree(exe, rnd.sample(recs, min(len(recs), 400 if tier == "quick" else 3000)), verdict)
     ok += nreq
@@ -873,7 +875,7 @@ def check_c12(exe, tier, seed, verdict):
     ok += check_longnames_fold(exe, verdict)
     cov = {"states": r.distinct, "transitions": r.generated, "traces_validated_against_impl": ok,
            "evaluations": len(recs) * 9, "distinct_nontrivial": nn,
-           "rule": "every 2-layer tree (main x4 per layer, every subset of 3 names per layer, content shapes) exported by TLC (%d trees, %d replayed): econf_readDirs, econf_readDirsWithCallback, econf_readConfig(+WithCallback) with PARSING_DIRS=<the same two directories>, econf_readDirsHistory(+WithCallback) econf_readDirs under econf_set_conf_dirs, and econf_readDirs(+WithCallback) with the directories as relative names, with trailing and with doubled slashes are all run on the SAME tree and each compared with the specification's expectation (so with each other; every fourth tree in a directory whose name holds list separators, blanks, delimiter / comment / format characters, brackets or non-ASCII bytes - all entry points but the option-string route); history members: path -> file identity, own content, order; model invariant HistoryFolds: folding the history with masking gives the result. The same under a non-default process-wide drop-in directory list (for every second tree put in force AFTER the option objects of the econf_readConfig variants were made), and with the suffix NULL / empty (every directory entry counts; %d trees over the names .conf, a.conf, a.conf.bak, conf): all merged-result entry points agree, both history variants agree and the delivered history folded with masking (Trace_Layers!THistFold) gives the result; the same with ONE drop-in name of 6, 64, 200, 254 and 255 bytes present in both layers. While a process-wide requirement (owner / group / file permission bits / directory permission bits, in rotation) is in force that one file of the tree does not fulfil, the six entry points answer with the same return code and result (%d trees). non-trivial = >= 2 files consulted and all seven calls compared." % (total, len(recs), nns, nreq),
+           "rule": "every 2-layer tree (main x4 per layer, every subset of 3 names per layer, content shapes) exported by TLC (%d trees, %d replayed): econf_readDirs, econf_readDirsWithCallback, econf_readConfig(+WithCallback) with PARSING_DIRS=<the same two directories>, econf_readDirsHistory(+WithCallback) econf_readDirs under econf_set_conf_dirs, and econf_readDirs(+WithCallback) with the directories as relative names, with trailing and with doubled slashes are all run on the SAME tree and each compared with the specification's expectation (so with each other; every fourth tree in a directory whose name holds list separators, blanks, delimiter / comment / format characters, brackets or non-ASCII bytes - all entry points; the option-string route is left out only where the name holds its list separators `:` `;`); history members: path -> file identity, own content, order; model invariant HistoryFolds: folding the history with masking gives the result. The same under a non-default process-wide drop-in directory list (for every second tree put in force AFTER the option objects of the econf_readConfig variants were made), and with the suffix NULL / empty (every directory entry counts; %d trees over the names .conf, a.conf, a.conf.bak, conf): all merged-result entry points agree, both history variants agree and the delivered history folded with masking (Trace_Layers!THistFold) gives the result; the same with ONE drop-in name of 6, 64, 200, 254 and 255 bytes present in both layers. While a process-wide requirement (owner / group / file permission bits / directory permission bits, in rotation) is in force that one file of the tree does not fulfil, the six entry points answer with the same return code and result (%d trees). non-trivial = >= 2 files consulted and all seven calls compared." % (total, len(recs), nns, nreq),
            "samples": [{"tree": tree_text({"main": x["main"], "drop": x["drop"], "shp": x["shp"]}), "history": x["hist"]} for x in recs[100:101]],
            "exhaustive": tier == "thorough",
            "trusted_base": ["TLC 1.8.0", "gcc ASan/UBSan", "drv.c"]}
@@ -1220,6 +1222,34 @@ def check_null_dirs(exe, verdict):
     return 1
 
 
+def check_blank_dirs(exe, verdict):
+    """layer directories whose NAMES begin or end with blanks (and drop-in directory postfixes that do): every entry point takes
+    them as given - the four that get the two directories as arguments and the two that get them through PARSING_DIRS"""
+    ok = 0
+    for n, (un, en) in enumerate((("vendor ", "etc"), ("vendor", " etc"), ("v\t", "e  "), (" u ", " e "))):
+        R = ROOT + "/bd%d" % n
+        U, E = R + "/" + un, R + "/" + en
+        s = ["rm %s" % hx(R), "file %s %s" % (hx(U + "/cfg.conf"), hx("M=vendor\nV=1\n")), "file %s %s" % (hx(U + "/cfg.conf.d/a.conf"), hx("A=vendor\n")),
+             "file %s %s" % (hx(E + "/cfg.conf.d/a.conf"), hx("A=etc\n")), "file %s %s" % (hx(E + "/cfg.conf.d/b.conf"), hx("B=etc\n"))]
+        for h, call in enumerate(("readdirs %d %s %s %s %s x3d x23", "readdirscb %d %s %s %s %s x3d x23"), start=1):
+            s += ["cbreset", call % (h, hx(U), hx(E), hx("cfg"), hx("conf")), "dump %d" % h, "free %d" % h]
+        for h, cb in ((3, ""), (4, "cb")):
+            s += ["cbreset", "newopt %d %s" % (h, hx("PARSING_DIRS=%s:%s" % (U, E))), "readconfig%s %d - - %s %s x3d x23" % (cb, h, hx("cfg"), hx("conf")), "dump %d" % h, "free %d" % h]
+        out = core.run_cases(exe, [("bd", s)], jobs=1)["bd"]
+        if out["crash"]:
+            verdict.violation("C12:blankdirs:crash", {"kind": "script", "script": s, "crash": out["crash"]}, "directory names with outer blanks: crash\n" + out["crash"][:700])
+            continue
+        m = [as_map(listing_of_dump(d) or []) for d in out["ev"] if d["op"] == "dump"]
+        exp = as_map([{"g": [], "k": codes(k), "v": codes(v)} for k, v in (("M", "vendor"), ("V", "1"), ("A", "etc"), ("B", "etc"))])
+        rcs = [e["rc"] for e in out["ev"] if e["op"].startswith("read")]
+        if len(m) != 4 or any(x != exp for x in m) or any(r != "ECONF_SUCCESS" for r in rcs):
+            verdict.violation("C12:blankdirs", {"kind": "script", "script": s, "dirs": [un, en], "rcs": rcs, "got": [str(x) for x in m]},
+                              "layer directories %r / %r: readDirs, readDirsWithCallback, readConfig(+WithCallback) with PARSING_DIRS -> %s, results %s" % (un, en, rcs, ["same" if x == exp else "DIFFERENT" for x in m]))
+        else:
+            ok += 1
+    return ok
+
+
 # --------------------------------------------------------------------------------------
 # C13 (tree part): a malformed file as any member of a tree
 # --------------------------------------------------------------------------------------
@@ -1257,7 +1287,8 @@ def c13_tree_cases(exe, tier, seed, verdict):
                 # the caller's callback itself reads another (well-formed, longer) file with the library before it answers:
                 # the reported error location must still be the malformed file of the OUTER read
                 s += ["file %s %s" % (hx(R + "/allow.list"), hx("a=1\nb=2\nc=3\nd=4\ne=5\nf=6\n")), "cbreset", "cbread %s" % hx(R + "/allow.list")]
-            s += shape.call(1, R, cb=(ent == "stdcb")) + ["errloc", "dump 1", "free 1", "cbreset"]
+            # (the location is asked for twice: a query is not the end of the record)
+            s += shape.call(1, R, cb=(ent == "stdcb")) + ["errloc", "errloc", "dump 1", "free 1", "cbreset"]
             cases.append((i, s))
             metas.append((t, paths, f, code, len(pre) + 1, K))
         if len(cases) >= budget:
@@ -1275,8 +1306,13 @@ def c13_tree_cases(exe, tier, seed, verdict):
             continue
         root = out["root"]
         rd = next(e for e in out["ev"] if e["op"].startswith("read"))
-        el = next(e for e in out["ev"] if e["op"] == "errloc")
+        els = [e for e in out["ev"] if e["op"] == "errloc"]
+        el = els[0]
         badpath = [norm(p.replace(ROOT, root)) for p, ff in paths.items() if ff == f][0]
+        if len(els) >= 2 and (els[1]["file"], els[1]["line"]) != (el["file"], el["line"]):
+            verdict.violation(fp + ":second-query", dict(case, first=[el["file"], el["line"]], second=[els[1]["file"], els[1]["line"]]),
+                              "econf_errLocation asked twice after the failure: first %r line %s, then %r line %s" % (el["file"], el["line"], els[1]["file"], els[1]["line"]))
+            continue
         got = {"rc": rd["rc"], "file": norm(el["file"] or ""), "line": el["line"], "obj": bool(rd.get("obj")) and not rd.get("same")}
         want = {"rc": code, "file": badpath, "line": lineno, "obj": False}
         if got != want:
